@@ -457,6 +457,75 @@ func checkC13(c *Ctx) {
 	c17RouteOwnHeaders(c, "R13l")
 	r.Rule("R13m", "codec units emitted for the concrete corpus files (partially annotated enums, nested messages, every annotation constant) contain no duplicate key in a map literal and no duplicate case in a switch — both are compile errors that only concrete descriptor values expose", 10)
 	corpusDuplicateKeys(c, "R13m")
+	r.Rule("R13n", "the typed header helpers of the Go client are declared once each, also when several methods declare a header of the same name or a method re-declares a service header", 3)
+	clientHeaderHelpersUnique(c, "R13n")
+}
+
+// clientHeaderHelpersUnique — R13n. The Go client's helper emitter is interpreted on concrete services (header names are
+// values, so equal names print equal identifiers): a service header re-declared by a method, one header name required by
+// two methods, and two spellings of one name. Every top-level `func Name(` of the printed text must be unique.
+func clientHeaderHelpersUnique(c *Ctx, rid string) {
+	r := c.R
+	fn := c.P.Func(pkgClient, "Generator.generateHeaderHelperOptions")
+	if fn == nil {
+		r.Unres(rid, "clientgen header helper emitter", "", "generateHeaderHelperOptions not found")
+		return
+	}
+	pos := c.P.Pos(c.P.Decls[fn].Pos())
+	prev := c.W.Concrete
+	c.W.Concrete = true
+	defer func() { c.W.Concrete = prev }()
+	hl := func(key string, names ...string) VList {
+		l := VList{Key: key, Elems: []Val{}}
+		for _, n := range names {
+			l.Elems = append(l.Elems, cHeader(n, "string", "", true))
+		}
+		return l
+	}
+	type scen struct {
+		name             string
+		service          []string
+		method1, method2 []string
+	}
+	for _, sc := range []scen{
+		{"distinct service and method headers", []string{"X-Api-Key"}, []string{"X-Request-ID"}, []string{"Idempotency-Key"}},
+		{"a method re-declares a service header", []string{"X-Api-Key"}, []string{"X-Api-Key"}, nil},
+		{"two methods declare the same header", nil, []string{"Idempotency-Key"}, []string{"Idempotency-Key"}},
+		{"two methods declare the same header, the service another", []string{"X-Api-Key"}, []string{"X-Request-ID"}, []string{"X-Request-ID"}},
+	} {
+		in, out := cMessage("Req"), cMessage("Resp")
+		m1 := cMethod("GetItem", in, out, map[string]Val{"@GetMethodHeaders": hl("mh1", sc.method1...)})
+		m2 := cMethod("PutItem", in, out, map[string]Val{"@GetMethodHeaders": hl("mh2", sc.method2...)})
+		svc := cService("Items", m1, m2)
+		svc.Fields["@GetServiceHeaders"] = hl("sh", sc.service...)
+		run := c.W.NewRun(map[string]int{}, false)
+		run.InlineAll, run.FollowSlices = true, true
+		run.CallHook = c.cdescHook
+		run.Units = []*Unit{{}}
+		run.StartArgs(fn, map[string]Val{"service": svc})
+		key := "go-client header helpers are declared once: " + sc.name
+		if len(run.Used) > 0 || run.Aborted != "" {
+			r.Undec(rid, key, pos, fmt.Sprintf("open decisions %v aborted %q", usedKeys(run), run.Aborted))
+			continue
+		}
+		seen := map[string]int{}
+		declRe := regexp.MustCompile(`^func ([A-Za-z_][A-Za-z0-9_]*)\(`)
+		for _, u := range run.Units {
+			for _, l := range u.Lines {
+				if m := declRe.FindStringSubmatch(strings.TrimSpace(lineText(l.Segs))); m != nil {
+					seen[m[1]]++
+				}
+			}
+		}
+		var dups []string
+		for _, n := range sortedKeys(seen) {
+			if seen[n] > 1 {
+				dups = append(dups, fmt.Sprintf("%s ×%d", n, seen[n]))
+			}
+		}
+		r.CheckD(len(dups) == 0 && len(seen) > 0, rid, key, pos,
+			fmt.Sprintf("service headers %v, method headers %v / %v: the emitted *_client.pb.go declares %s — `redeclared in this block`, the generated client package does not compile", sc.service, sc.method1, sc.method2, strings.Join(dups, ", ")), map[string]any{"functions": len(seen)})
+	}
 }
 
 // corpusDuplicateKeys — R13m. Symbolic exploration prints one placeholder per descriptor value, so two emitted map keys or
